@@ -336,6 +336,22 @@ func rmCensus(m *sysl.Module) [][]string {
 			for fn, f := range defs {
 				add("field", name, tn, fn, ty(f))
 				attrs("field", []string{name, tn, fn}, f.GetAttrs())
+				// the declared length / precision of a plain field (the constraints of the elements of a collection
+				// are not compared: the relational form has one constraint per field)
+				ct := f
+				var lmin, lmax int64
+				var prec, scale int32
+				for _, c := range ct.GetConstraint() {
+					if l := c.GetLength(); l != nil {
+						lmin, lmax = l.GetMin(), l.GetMax()
+					}
+					if c.GetPrecision() != 0 || c.GetScale() != 0 {
+						prec, scale = c.GetPrecision(), c.GetScale()
+					}
+				}
+				if lmin != 0 || lmax != 0 || prec != 0 || scale != 0 {
+					add("field.constraint", name, tn, fn, fmt.Sprintf("len=%d..%d,prec=%d.%d", lmin, lmax, prec, scale))
+				}
 			}
 		}
 		for en, e := range a.GetEndpoints() {
